@@ -6,12 +6,27 @@ From Coq Require Import String ZArith List Bool PrimFloat Arith Lia.
 From NSL Require Import Base.Types Base.Syntax Spec.Overload Model.PyNum Model.IR Model.VM Model.TypesBin Model.Elab Model.Lower Spec.RefSem
                         Proofs.OpsAgree Proofs.OptProofs Proofs.LowerExprProofs Proofs.ElabExprProofs Proofs.ReturnExprProofs Proofs.CallAgreeProofs
                         Proofs.LowerStmtProofs Proofs.ElabStmtProofs Proofs.StraightLineProofs Proofs.HistoryRefineProofs Proofs.LowerWfProofs Proofs.LowerAllocProofs
-                        Proofs.FlowLowerProofs Proofs.FlowFuncProofs Proofs.FlowElabProofs Proofs.FlowTableProofs Proofs.FlowSimProofs Proofs.LoopLowerProofs Proofs.LoopElabProofs.
+                        Proofs.FlowLowerProofs Proofs.FlowFuncProofs Proofs.FlowElabProofs Proofs.FlowTableProofs Proofs.FlowSimProofs Proofs.LoopLowerProofs Proofs.LoopElabProofs Proofs.ForElabProofs.
 Import ListNotations.
 
 Definition is_swhile (n : nat) (s : stmt) : bool := match s with SWhile c (Some b) => spure c && bsrc n b | _ => false end.
 Definition is_sdo (n : nat) (s : stmt) : bool := match s with SDo b c => spure c && forallb (bsrc n) b | _ => false end.
-Definition wstop (n : nat) (s : stmt) : bool := stop n s || is_swhile n s || is_sdo n s.
+Definition is_sfor (n : nat) (s : stmt) : bool :=
+  match s with
+  | SFor (Some (t, x, i)) (Some c) (Some (EAssign AAssign (EVar y) r)) b =>
+      ssimple0 (SDecl t x i) && spure c && ssimple (SExpr (EAssign AAssign (EVar y) r)) && bsrc n b
+  | _ => false
+  end.
+Definition wstop (n : nat) (s : stmt) : bool := stop n s || is_swhile n s || is_sdo n s || is_sfor n s.
+
+(** the variable of a for header is not visible where the loop stands (the name validator rejects the program otherwise: C12) *)
+Definition for_fresh (gl args : list string) (env : tenv) (s : stmt) : Prop :=
+  match s with
+  | SFor (Some (_, x, _)) _ _ _ => existsb (String.eqb x) gl = false /\ existsb (String.eqb x) args = false /\ tlookup env x = None
+  | _ => True
+  end.
+Fixpoint fors_fresh (gl args : list string) (env : tenv) (l : list stmt) : Prop :=
+  match l with [] => True | s :: r => for_fresh gl args env s /\ fors_fresh gl args (env_step env s) r end.
 Definition wtopexprs (n : nat) (ts : tstmt) : list texpr :=
   match ts with
   | TWhile c (Some b) => c :: bexprs n b
@@ -291,14 +306,18 @@ Section WStatic.
         by (destruct ts as [| | | | |a1 b1 c1 d1|c0 [b0|]|b0 c0| |]; try reflexivity; exfalso; [apply (Hnf a1 b1 c1 d1)|apply (Hnw c0 b0)|apply (Hnd b0 c0)]; reflexivity).
       destruct (top_stmt_static G n s ts env env' Hn Est He) as [Hok Hn']; [unfold wtnonan in Hnan; rewrite E in Hnan; exact Hnan|].
       split; [unfold wtop_ok; rewrite Hok; reflexivity|exact Hn'].
-    - cbn [orb] in Hs. destruct s as [| | | | | |c [b|]|b c| |]; try discriminate.
-      + cbn [is_swhile is_sdo orb] in Hs. rewrite orb_false_r in Hs. apply andb_prop in Hs as [Hpc Hbb].
+    - cbn [orb] in Hs. destruct s as [| | | | |[[[t0 x0] i0]|] [c1|] [[| | | |[] [| |y0| | | | | | | |] r0| | | | | |]|] b1|c [b|]|b c| |]; try discriminate.
+      + cbn [is_swhile is_sdo is_sfor orb] in Hs. apply andb_prop in Hs as [Hs Hbb]. apply andb_prop in Hs as [Hs Hsn]. apply andb_prop in Hs as [Hd Hpc].
+        destruct (for_elab_inv G n env t0 x0 i0 c1 y0 r0 b1 ts env' Hd Hpc Hsn Hbb Hn He) as (i' & c' & nx & b' & -> & -> & _ & _ & _ & _ & _ & Hsd & Hpt & Hbn & Hbs).
+        { intros i' c' nx b' -> e Hin f Hf. apply (Hnan e); [exact Hin|exact Hf]. }
+        split; [|exact Hn]. unfold wtop_ok. cbn [is_while is_do is_for]. rewrite Hsd, Hpt, Hbn, Hbs. apply orb_true_r.
+      + cbn [is_swhile is_sdo is_sfor orb] in Hs. rewrite !orb_false_r in Hs. apply andb_prop in Hs as [Hpc Hbb].
         destruct (while_elab_inv n env c b ts env' Hpc Hbb Hn He) as (c' & b' & -> & -> & Eb & Ec & Hbs).
         { intros b' Eb x Hx f Hf. rewrite elab_while_unfold in He. cbn zeta in He. rewrite Eb in He. cbn [ebind fst snd] in He.
           destruct (elab G COn ([] :: env) c) as [c'| |]; cbn [ebind] in He; try discriminate. inversion He; subst ts. apply (Hnan x); [right; exact Hx|exact Hf]. }
         split; [|exact Hn]. unfold wtop_ok. cbn [is_while is_do is_for]. rewrite Hbs, andb_true_r, !orb_false_r.
         rewrite (elab_tpure_static G ([] :: env) (env_num_push env Hn) c c' Hpc Ec); [apply orb_true_r|]. intros f Hf. apply (Hnan c'); [left; reflexivity|exact Hf].
-      + cbn [is_swhile is_sdo orb] in Hs. apply andb_prop in Hs as [Hpc Hbb].
+      + cbn [is_swhile is_sdo is_sfor orb] in Hs. rewrite orb_false_r in Hs. apply andb_prop in Hs as [Hpc Hbb].
         destruct (do_elab_inv n env b c ts env' Hpc Hbb Hn He) as (b' & c' & -> & -> & Eb & Ec & Hbs).
         { intros b' Eb x Hx f Hf. rewrite elab_do_unfold in He. cbn zeta in He. rewrite Eb in He. cbn [ebind] in He.
           destruct (elab G COn ([] :: env) c) as [c'| |]; cbn [ebind] in He; try discriminate. inversion He; subst ts. apply (Hnan x); [right; exact Hx|exact Hf]. }
@@ -356,12 +375,12 @@ Section WSrc.
   Qed.
 
   Theorem wtop_stmt_preserved n s ts env env' fuel st fl st1 locals V A vs :
-    wstop n s = true -> elab_stmt G env s = EOk (ts, env') -> wtgood n ts -> fresh_decl gl args s ->
+    wstop n s = true -> elab_stmt G env s = EOk (ts, env') -> wtgood n ts -> fresh_decl gl args s -> for_fresh gl args env s ->
     exec M fuel s st = RefSem.ROk (fl, st1) -> Agree gl args env st locals V A vs ->
     fl = ONormal /\ env' = env_step env s /\ (forall y, In y (locals_names st1) -> In y (decl_name s) \/ In y (locals_names st)) /\
     exists locals' V' A' vs', wtopexec structs gl args n fuel cs locals ts V A vs = Some (locals', V', A', vs') /\ Agree gl args env' st1 locals' V' A' vs'.
   Proof.
-    intros Hs He Hg Hfr Hex Hag. unfold wstop in Hs. destruct (stop n s) eqn:Est.
+    intros Hs He Hg Hfr Hff Hex Hag. unfold wstop in Hs. destruct (stop n s) eqn:Est.
     - pose proof (stop_elab_not_while G n s ts env env' Est He) as Hnw. pose proof (stop_elab_not_do G n s ts env env' Est He) as Hnd.
       pose proof (stop_elab_not_for G n s ts env env' Est He) as Hnf.
       assert (E : wtopexprs n ts = topexprs n ts)
@@ -370,8 +389,17 @@ Section WSrc.
         by (destruct ts as [| | | | |a1 b1 c1 d1|c0 [b0|]|b0 c0| |]; try reflexivity; exfalso; [apply (Hnf a1 b1 c1 d1)|apply (Hnw c0 b0)|apply (Hnd b0 c0)]; reflexivity).
       rewrite Ex. apply (top_stmt_preserved M G structs gl args cs n s ts env env' fuel st fl st1 locals V A vs Est He); try assumption.
       unfold tgood. unfold wtgood in Hg. rewrite E in Hg. exact Hg.
-    - cbn [orb] in Hs. destruct s as [| | | | | |c [b|]|b c| |]; try discriminate.
-      2:{ cbn [is_swhile is_sdo orb] in Hs. apply andb_prop in Hs as [Hpc Hbb].
+    - cbn [orb] in Hs. destruct s as [| | | | |[[[t0 x0] i0]|] [c1|] [[| | | |[] [| |y0| | | | | | | |] r0| | | | | |]|] b1|c [b|]|b c| |]; try discriminate.
+      { cbn [is_swhile is_sdo is_sfor orb] in Hs. apply andb_prop in Hs as [Hs Hbb]. apply andb_prop in Hs as [Hs Hsn]. apply andb_prop in Hs as [Hd Hpc].
+        destruct Hff as (Hxg & Hxa & Hxe).
+        destruct (for_elab_inv G n env t0 x0 i0 c1 y0 r0 b1 ts env' Hd Hpc Hsn Hbb (Agree_env_num gl args _ _ _ _ _ _ Hag) He) as (i' & c' & nx & b' & -> & -> & Ed & Ec & En & Eb & _).
+        { intros i' c' nx b' -> e Hin f Hf. destruct (Hg e Hin) as [_ [_ Hfl]]. apply (Hfl f Hf). }
+        destruct (src_for M G structs gl args cs n t0 x0 i0 c1 y0 r0 b1 i' c' nx b' env fuel st fl st1 locals V A vs Hd Hpc Hsn Hbb Hxg Hxa Hxe Ed Ec En Eb Hg Hex Hag)
+          as (Hfl & Hsh & locals' & V' & A' & vs' & Hw & Hag').
+        split; [exact Hfl|]. split; [reflexivity|].
+        split; [intros y Hy; right; unfold locals_names in *; rewrite !flat_map_concat_map in *; unfold shape in Hsh; rewrite <- Hsh; exact Hy|].
+        exists locals', V', A', vs'. split; [exact Hw|exact Hag']. }
+      2:{ cbn [is_swhile is_sdo is_sfor orb] in Hs. rewrite orb_false_r in Hs. apply andb_prop in Hs as [Hpc Hbb].
           destruct (do_elab_inv G n env b c ts env' Hpc Hbb (Agree_env_num gl args _ _ _ _ _ _ Hag) He) as (b' & c' & -> & -> & Eb & Ec & Hbs).
           { intros b' Eb x Hx f Hf. rewrite elab_do_unfold in He. cbn zeta in He. rewrite Eb in He. cbn [ebind] in He.
             destruct (elab G COn ([] :: env) c) as [c'| |]; cbn [ebind] in He; try discriminate. inversion He; subst ts.
@@ -382,7 +410,7 @@ Section WSrc.
           split; [exact Hfl|]. split; [reflexivity|].
           split; [intros y Hy; right; unfold locals_names in *; rewrite !flat_map_concat_map in *; unfold shape in Hsh; rewrite <- Hsh; exact Hy|].
           exists locals, V', A', vs'. split; [cbn [wtopexec]; unfold dspec; rewrite Hw; reflexivity|exact Hag']. }
-      cbn [is_swhile is_sdo orb] in Hs. rewrite orb_false_r in Hs. apply andb_prop in Hs as [Hpc Hbb].
+      cbn [is_swhile is_sdo is_sfor orb] in Hs. rewrite !orb_false_r in Hs. apply andb_prop in Hs as [Hpc Hbb].
       destruct (while_elab_inv G n env c b ts env' Hpc Hbb (Agree_env_num gl args _ _ _ _ _ _ Hag) He) as (c' & b' & -> & -> & Eb & Ec & Hbs).
       { intros b' Eb x Hx f Hf. rewrite elab_while_unfold in He. cbn zeta in He. rewrite Eb in He. cbn [ebind fst snd] in He.
         destruct (elab G COn ([] :: env) c) as [c'| |]; cbn [ebind] in He; try discriminate. inversion He; subst ts.
@@ -399,7 +427,7 @@ Section WSrc.
     forallb (wstop n) l = true -> spure e = true ->
     elab_body G env (l ++ [SRet (Some e)]) = EOk (tl ++ [TRet (Some te)]) -> length tl = length l ->
     Forall (wtgood n) tl -> tok te = true -> lit_ok cs te ->
-    Forall (fresh_decl gl args) l ->
+    Forall (fresh_decl gl args) l -> fors_fresh gl args env l ->
     exec_list M fuel (l ++ [SRet (Some e)]) st = RefSem.ROk (fl, st1) -> Agree gl args env st locals V A vs ->
     exists locals' V' A' vs' v,
       wtopexec_list structs gl args n fuel cs locals tl V A vs = Some (locals', V', A', vs') /\
@@ -407,7 +435,7 @@ Section WSrc.
       Agree gl args (env_after env l) st1 locals' V' A' vs' /\
       (forall y, In y (locals_names st1) -> In y (flat_map decl_name l) \/ In y (locals_names st)).
   Proof.
-    induction l as [|s r IH]; intros env e tl te fuel st fl st1 locals V A vs Hs Hp He Hlen Hg Hkt Hlt Hfr Hex Hag.
+    induction l as [|s r IH]; intros env e tl te fuel st fl st1 locals V A vs Hs Hp He Hlen Hg Hkt Hlt Hfr Hff Hex Hag.
     - destruct tl; [|discriminate]. cbn [app] in *. cbn [elab_body elab_stmt elab_opt ebind] in He.
       destruct (elab G COn env e) as [te'| |] eqn:Ee; cbn [ebind elab_body] in He; try discriminate. inversion He; subst te'; clear He.
       apply exec_list_return in Hex as (fu & s0 & Hev & ->).
@@ -422,7 +450,9 @@ Section WSrc.
       cbn [forallb] in Hs. apply andb_prop in Hs as [Hs1 Hsr]. inversion Hg as [|? ? Hg1 Hgr]; subst. inversion Hfr as [|? ? Hf1 Hfr']; subst.
       destruct fuel as [|fu]; [discriminate|]. rewrite exec_list_cons in Hex.
       destruct (exec M fu s st) as [[fl1 st2]| | |] eqn:Ex; cbn [rbind] in Hex; try discriminate.
-      destruct (wtop_stmt_preserved n s ts env env' fu st fl1 st2 locals V A vs Hs1 Es Hg1 Hf1 Ex Hag) as (-> & Henv' & Hnm1 & locals1 & V1 & A1 & vs1 & Ht1 & Hag1).
+      cbn [fors_fresh] in Hff. destruct Hff as [Hff1 Hffr].
+      destruct (wtop_stmt_preserved n s ts env env' fu st fl1 st2 locals V A vs Hs1 Es Hg1 Hf1 Hff1 Ex Hag) as (-> & Henv' & Hnm1 & locals1 & V1 & A1 & vs1 & Ht1 & Hag1).
+      rewrite <- Henv' in Hffr.
       destruct (IH env' e tl te fu st2 fl st1 locals1 V1 A1 vs1 Hsr Hp Er) as (locals' & V' & A' & vs' & v & Ht2 & Hv & Hfl & Henv & Hnm); auto.
       rewrite Henv' in Henv.
       exists locals', V', A', vs', v. cbn [wtopexec_list]. rewrite (wtopexec_mono n ts fu locals V A vs _ Ht1 (S fu) (Nat.le_succ_diag_r fu)).
@@ -440,7 +470,7 @@ Theorem loop_function_simulation :
     forall tl te, tf_body tf = tl ++ [TRet (Some te)] -> length tl = length l ->
     forallb tok (flat_map (wtopexprs n) tl ++ [te]) = true ->
     lits_exact (flat_map tflits (flat_map (wtopexprs n) tl ++ [te])) -> (forall q, In q (flat_map tflits (flat_map (wtopexprs n) tl ++ [te])) -> PrimFloat.eqb q q = true) ->
-    Forall (fresh_decl (glnames M) (argnames fn)) l ->
+    Forall (fresh_decl (glnames M) (argnames fn)) l -> fors_fresh (glnames M) (argnames fn) (fenv M fn) l ->
     forall (P : program) (ws : list rval) (g : RefSem.frame) (vs : vmstate),
       Forall2 (fun p w => has_ty w (fst p)) (f_args fn) ws ->
       (forall x, In x (map snd (f_args fn)) -> ~ In x (glnames M)) ->
@@ -452,7 +482,7 @@ Theorem loop_function_simulation :
           (exists locals' V' A', Agree (glnames M) (argnames fn) (env_after (fenv M fn) l) st' locals' V' A' vs') /\
           (forall y, In y (locals_names st') -> In y (flat_map decl_name l) \/ In y (locals_names (call_state fn ws g))).
 Proof.
-  intros M fn n l e tf F Hbody Hs Hp Helab Hlower tl te Htb Hlen Hk Hlit Hnan Hfr P ws g vs Hargs Hdist Hglob fuel fl st' Hex.
+  intros M fn n l e tf F Hbody Hs Hp Helab Hlower tl te Htb Hlen Hk Hlit Hnan Hfr Hff P ws g vs Hargs Hdist Hglob fuel fl st' Hex.
   unfold elab_func in Helab. rewrite Hbody in Helab. fold (fenv M fn) in Helab.
   destruct (elab_body (genv_of M) (fenv M fn) (l ++ [SRet (Some e)])) as [tb| |] eqn:Eb; cbn [ebind] in Helab; try discriminate.
   inversion Helab; subst tf; clear Helab. cbn [tf_body tf_args] in *. subst tb.
